@@ -52,6 +52,18 @@ func genFor(model string) func(t *rapid.T) Case {
 				}
 			}
 		}
+		// fine sediment: overbank steps (flood-plain deposition and channel deposition act on the same load) need an
+		// outflow above the bank-full flow, which the generic flow series only exceeds by chance
+		if name == "InstreamFineSediment" && rapid.Bool().Draw(t, "overbank") {
+			if bff := c.A.Cell[simref.ParamIndex(desc, "bankFullFlow")][0]; bff > 1e-8 {
+				out := c.A.Inputs[simref.InputIndex(desc, "outflow")]
+				for k := range out {
+					if rapid.Bool().Draw(t, "overbankStep") {
+						out[k] = bff * (1 + rapid.Float64Range(0.01, 4).Draw(t, "over"))
+					}
+				}
+			}
+		}
 		// initial stored masses
 		c.State0 = make([]float64, len(desc.States))
 		if rapid.Bool().Draw(t, "stored0") {
